@@ -73,11 +73,15 @@ type failingReader struct {
 	after  int
 	failed bool
 	err    error
+	onFail func() // runs once, right before the first failure is reported
 }
 
 func (r *failingReader) Token() (xml.Token, error) {
 	if r.i >= r.after || r.failed {
 		simrt.Yield("tok")
+		if !r.failed && r.onFail != nil {
+			r.onFail()
+		}
 		r.failed = true
 		if r.err != nil {
 			return nil, r.err
@@ -563,10 +567,19 @@ func runC05(rc *RC) {
 			if r.err == io.EOF && openAt(toks, r.after, c.kind == "Send-failing-reader") == 0 {
 				r.err = nil // an end of input between two complete children is no truncation anybody could notice
 			}
+			cctx := ctx
+			if ch.Chance("workload", 1, 3) {
+				// the payload is produced under the call's own context, which ends half way: the source reports that
+				var ccancel context.CancelFunc
+				cctx, ccancel = context.WithCancel(ctx)
+				defer ccancel()
+				r.err = context.Canceled
+				r.onFail = func() { simrt.Settle(ccancel, "h:cancel"); rc.Fire("context-ends-in-payload") }
+			}
 			if c.kind == "Send-failing-reader" {
-				c.err = s.Send(ctx, r)
+				c.err = s.Send(cctx, r)
 			} else {
-				c.err = s.SendElement(ctx, r, c.spec.start())
+				c.err = s.SendElement(cctx, r, c.spec.start())
 			}
 			if r.failed {
 				rc.Fire("reader-error")
@@ -854,6 +867,16 @@ func runC05(rc *RC) {
 		return n == nPings && strings.HasPrefix(serveT.Site, "read:")
 	}
 	st := rc.S.Run(allDone, 100000, time.Minute)
+	if rc.Net.Fired["deadline"] > 0 && rc.Fired["context-ends-in-payload"] > 0 {
+		// Nothing in this scenario sets a deadline on the connection except the library itself, which enforces an ended
+		// context on a write by setting the write deadline into the past and clearing it again. A write failed on that
+		// deadline: the clean-up after the failed payload fell between the two statements (statement-level preemption).
+		// The session's encoder keeps that error for good, so the element stays open and every later call fails: one
+		// finding (recorded under C06 as well), not one per symptom.
+		rc.Failf("C05.c1", "write-deadline-error-after-ended-context", "a call's context ended while its payload was produced; the library's write-deadline helper had set the deadline into the past and not yet cleared it when the call closed what it had opened: that write failed with the connection's deadline error, which the session's encoder keeps (status %v)", st)
+		rc.Teardown()
+		return
+	}
 	if st != simrt.CondMet {
 		rc.Failf("C05.c1", "calls-not-finished", "transmit calls did not all finish: status %v, stuck %v", st, rc.S.Stuck())
 	}
